@@ -223,5 +223,5 @@ func run(in Input) (res lib.Result) {
 }
 
 func main() {
-	lib.Main(lib.Harness[Input]{Prop: "C14", Quick: 500, Thorough: 16000, Gen: gen, Run: run})
+	lib.Main(lib.Harness[Input]{Prop: "C14", Quick: 400, Thorough: 3000, Gen: gen, Run: run})
 }
